@@ -374,6 +374,79 @@ def power_time(common, name):
     raise NotRecognised(name)
 
 
+def trip_name_rule(pl):
+    """[glob suffix, separator, slice lo, slice hi, suffix of the type file, suffix of the temp file] of
+    `trip_paths = glob.glob(base + G)`, `{SEP.join(os.path.basename(p).split(SEP)[LO:HI]) for p in trip_paths}`,
+    `trip_point + "_type"` / `trip_point + "_temp"` inside `for trip_point in trip_points`"""
+    fn = _temp_fn(pl)
+    _, zone = _hwmon_and_zone_loops(fn)
+    g = None
+    for a in _assign_to(zone, "trip_paths"):
+        v = a.value
+        if isinstance(v, ast.Call) and extract.dotted(v.func) == "glob.glob" and len(v.args) == 1 \
+                and isinstance(v.args[0], ast.BinOp) and isinstance(v.args[0].op, ast.Add) \
+                and extract.dotted(v.args[0].left) == "base":
+            g = extract.const(v.args[0].right)
+    if g is None:
+        raise NotRecognised("trip_paths = glob.glob(base + ...) not found")
+    rule = None
+    for a in _assign_to(zone, "trip_points"):
+        v = a.value
+        if not (isinstance(v, ast.SetComp) and len(v.generators) == 1 and not v.generators[0].ifs
+                and extract.dotted(v.generators[0].iter) == "trip_paths"):
+            continue
+        var = extract.dotted(v.generators[0].target)
+        e = v.elt
+        if isinstance(e, ast.Call) and isinstance(e.func, ast.Attribute) and e.func.attr == "join" \
+                and isinstance(e.func.value, ast.Constant) and len(e.args) == 1 and isinstance(e.args[0], ast.Subscript):
+            sub = e.args[0]
+            sp = sub.value
+            if isinstance(sub.slice, ast.Slice) and sub.slice.step is None and isinstance(sp, ast.Call) \
+                    and isinstance(sp.func, ast.Attribute) and sp.func.attr == "split" and len(sp.args) == 1 \
+                    and extract.unparse(sp.func.value) == "os.path.basename(%s)" % var:
+                sep = extract.const(e.func.value)
+                if extract.const(sp.args[0]) != sep:
+                    raise NotRecognised("split and join separators differ")
+                lo = 0 if sub.slice.lower is None else extract.const(sub.slice.lower)
+                hi = extract.const(sub.slice.upper)
+                rule = (sep, _nat(lo), _nat(hi))
+    if rule is None:
+        raise NotRecognised("trip_points set comprehension not recognised")
+    trip = _for_loops(zone, "trip_point")
+    if len(trip) != 1 or extract.dotted(trip[0].iter) != "trip_points":
+        raise NotRecognised("`for trip_point in trip_points` not found")
+    sufs = []
+    for n in ast.walk(trip[0]):
+        if isinstance(n, ast.BinOp) and isinstance(n.op, ast.Add) and extract.dotted(n.left) == "trip_point":
+            c = extract.const(n.right)
+            if c not in sufs:
+                sufs.append(c)
+    # the type file is the one handed to cat(), the temp file the one handed to bcat()
+    cat_args = [extract.unparse(n.args[0]) for n in ast.walk(trip[0])
+                if isinstance(n, ast.Call) and extract.dotted(n.func) == "cat" and n.args]
+    if cat_args != ["path"] or len(sufs) != 2:
+        raise NotRecognised("trip-point file names: %r / cat(%r)" % (sufs, cat_args))
+    return [g, rule[0], str(rule[1]), str(rule[2])] + sufs
+
+
+def trip_kinds(pl):
+    """[constant compared with trip_type, variable assigned] for the if / elif of the trip-point loop"""
+    fn = _temp_fn(pl)
+    _, zone = _hwmon_and_zone_loops(fn)
+    trip = _for_loops(zone, "trip_point")
+    if len(trip) != 1:
+        raise NotRecognised("trip-point loop not found")
+    out = []
+    for n in ast.walk(trip[0]):
+        if isinstance(n, ast.If) and isinstance(n.test, ast.Compare) and extract.dotted(n.test.left) == "trip_type":
+            if not (len(n.test.ops) == 1 and isinstance(n.test.ops[0], ast.Eq)):
+                raise NotRecognised("trip_type test %s" % extract.unparse(n.test))
+            if not (len(n.body) == 1 and isinstance(n.body[0], ast.Assign)):
+                raise NotRecognised("trip_type branch body")
+            out += [extract.const(n.test.comparators[0]), extract.dotted(n.body[0].targets[0])]
+    return out
+
+
 def facts(snap, F):
     pl = extract.parse_module(snap, "_pslinux.py")
     init = extract.parse_module(snap, "__init__.py")
@@ -418,3 +491,7 @@ def facts(snap, F):
               "cpu_count_cores: the glob patterns in the order of `glob(A) or glob(B)` (content stripped, set size returned)")
     F.try_add("coresMapping", "List String", lambda: strs(cores_mapping(pl)),
               "cpu_count_cores method #2: [K, V] of `mapping[current_info[K]] = current_info[V]`, then the `startswith` keys")
+    F.try_add("tripNameRule", "List String", lambda: strs(trip_name_rule(pl)),
+              "thermal zone: [glob suffix, separator, slice lo, hi of `SEP.join(basename(p).split(SEP)[lo:hi])`, suffix of the type file, of the temp file]")
+    F.try_add("tripKinds", "List String", lambda: strs(trip_kinds(pl)),
+              "trip-point loop: [constant compared with trip_type, variable assigned] per branch")
